@@ -18,6 +18,7 @@ import Grip.Model.C03
 import Grip.Spec.C03
 import GripProofs.Lemmas.C03Lbl
 import GripProofs.Lemmas.C03Names
+import GripProofs.Lemmas.C03Cor
 
 namespace Grip.Props.C03
 open Grip Grip.C03 Grip.C03.Spec
@@ -156,5 +157,75 @@ example : NoReaddHist {} (witnessOps.take 3) := by
   show NoReaddHist {} [.addGraph "g1", _, _]
   rw [Lemmas.noReaddHist_addGraph Lemmas.goodName_g1]
   with_unfolding_all decide
+
+/-! ### corollaries stated outright -/
+
+/-- Invalid elements are rejected with an error and change nothing: a non-empty AddVertex /
+    AddEdge / BulkAdd all of whose elements are invalid returns an error and leaves the whole
+    state (store, fields, timestamps, clock) as it was — on any state, no invariant needed.
+    (Invalid elements inside a mixed batch are skipped likewise: that is part of
+    `step_refines_partial`, since the SPEC's `putElem` ignores them.) -/
+theorem invalid_rejected (s : KState) (g : String) :
+    (∀ vs : List VertexIn, vs ≠ [] → (∀ v, v ∈ vs → validVertex v = false) →
+      step s (.addV g vs) = (s, .err)) ∧
+    (∀ es : List EdgeIn, es ≠ [] → (∀ e, e ∈ es → validEdge e = false) →
+      step s (.addE g es) = (s, .err)) ∧
+    (∀ xs : List ElemIn, xs ≠ [] → (∀ x, x ∈ xs → validElem x = false) →
+      step s (.bulk g xs) = (s, .err)) := by
+  refine ⟨fun vs hne h => ?_, fun es hne h => ?_, fun xs hne h => ?_⟩
+  · apply Lemmas.addElems_all_invalid s g (vs.map .v) (by simpa using hne)
+    intro x hx
+    obtain ⟨v, hv, rfl⟩ := List.mem_map.1 hx
+    exact h v hv
+  · apply Lemmas.addElems_all_invalid s g (es.map .e) (by simpa using hne)
+    intro x hx
+    obtain ⟨e, he, rfl⟩ := List.mem_map.1 hx
+    exact h e he
+  · exact Lemmas.addElems_all_invalid s g xs hne h
+
+/-- Deleting something absent changes nothing.  An absent edge: error, MODEL and SPEC states
+    unchanged.  An absent vertex with no (dangling) edge attached to its id: store and abstract
+    graph unchanged (the operation still counts as a write for the timestamp, as in the SPEC).
+    NOTE: edges may dangle (AddEdge does not check its endpoints), and kvgraph's DelVertex of an
+    absent vertex id does delete the dangling edges attached to that id; the SPEC says the same, so
+    the hypothesis `he` is needed. -/
+theorem delete_absent_noop {s : KState} {a : AG} (h : Refines s a) (g : String) :
+    (∀ eid, a.getE g eid = none →
+      step s (.delE g eid) = (s, .err) ∧ specStep a (.delE g eid) = (a, .err)) ∧
+    (∀ id, g ∈ a.graphs → a.getV g id = none →
+      (∀ eid r, a.getE g eid = some r → r.frm ≠ id ∧ r.to ≠ id) →
+      (step s (.delV g id)).1.kv = s.kv ∧
+      (specStep a (.delV g id)).1.graphs = a.graphs ∧
+      (specStep a (.delV g id)).1.verts = a.verts ∧
+      (specStep a (.delV g id)).1.edges = a.edges) :=
+  ⟨fun eid hr => Lemmas.delE_absent h g eid hr, fun id hg hv he => Lemmas.delV_absent h g id hg hv he⟩
+
+/-- The timestamp reported for graph `g` changes across an operation iff the operation is a
+    write to `g` (`Wrote`: created `g`, deleted `g`, accepted at least one element for existing
+    `g`, deleted a vertex on existing `g`, deleted an existing edge of `g`) — in particular it
+    never changes for a graph other than the one the operation addresses.  No side condition: the
+    timestamp behaviour is right even in the region of the open finding. -/
+theorem timestamp_iff_write {s : KState} {a : AG} (h : Refines s a) (op : Op) (g : String) :
+    ((step s op).1.stamp g ≠ s.stamp g ↔ Wrote a op g) ∧
+    ((specStep a op).1.stamp g ≠ a.stamp g ↔ Wrote a op g) ∧
+    (g ≠ opGraph op → (step s op).1.stamp g = s.stamp g) := by
+  have hm : (step s op).1.stamp g = (specStep a op).1.stamp g := by
+    simp [KState.stamp, AG.stamp, (Lemmas.step_stamps h op).1]
+  have hs : s.stamp g = a.stamp g := by simp [KState.stamp, AG.stamp, h.stamps]
+  have hsp := Lemmas.spec_stamp_iff h.stampLe op g
+  refine ⟨by rw [hm, hs]; exact hsp, hsp, ?_⟩
+  intro hne
+  rw [hm, hs]
+  apply Classical.byContradiction
+  intro hc
+  have hw := hsp.1 hc
+  cases op with
+  | delGraph g0 => exact hne hw
+  | addGraph g0 => exact hne hw.1
+  | addV g0 _ => exact hne hw.1
+  | addE g0 _ => exact hne hw.1
+  | bulk g0 _ => exact hne hw.1
+  | delV g0 _ => exact hne hw.1
+  | delE g0 _ => exact hne hw.1
 
 end Grip.Props.C03
